@@ -438,6 +438,7 @@ class SimProbe : public Oomd::Engine::BasePlugin {
           return Oomd::PluginArgParser::parseCgroup(context, s);
         }, true);
     argParser_.addArgument("order", order_);
+    argParser_.addArgument("light", light_);
     if (!argParser_.parse(args))
       return 1;
     return 0;
@@ -574,9 +575,11 @@ class SimProbe : public Oomd::Engine::BasePlugin {
       Json::Value unstable(Json::arrayValue);
       for (auto& f : fields) {
         Json::Value a = one(c, f);
-        Json::Value b = one(c, f);
         vals[f] = a;
-        if (jstr(a) != jstr(b))
+        if (light_)
+          continue;
+        Json::Value b = one(c, f);
+        if (a.compare(b) != 0)
           unstable.append(f);
       }
       Ev e;
@@ -598,7 +601,8 @@ class SimProbe : public Oomd::Engine::BasePlugin {
     }
   }
   void prerun(Oomd::OomdContext& ctx) override {
-    sweep(ctx, "prerun");
+    if (!light_)
+      sweep(ctx, "prerun");
   }
   Oomd::Engine::PluginRet run(Oomd::OomdContext& ctx) override {
     sweep(ctx, "run");
@@ -631,6 +635,7 @@ class SimProbe : public Oomd::Engine::BasePlugin {
   std::string id_;
   std::unordered_set<Oomd::CgroupPath> cgroups_;
   int order_ = 0;
+  bool light_ = false;
 };
 } // namespace sim
 namespace Oomd {
